@@ -52,9 +52,11 @@ def sig_matches(entry_sig, sig):
     return all(sig.get(k) == v for k, v in entry_sig.items())
 
 
-def match_known(known, sig):
+def match_known(known, sig, case=None):
+    """index of the known finding that covers this violation: its signature must match and, if the entry names one specific
+    input (`case` = first 12 hex digits of the case digest), the violation must come from exactly that input"""
     for i, e in enumerate(known):
-        if sig_matches(e["signature"], sig):
+        if sig_matches(e["signature"], sig) and ("case" not in e or (case is not None and digest(case)[:12] == e["case"])):
             return i
     return None
 
@@ -143,7 +145,7 @@ class Session:
         if viol is None:
             return
         sig = viol.get("sig", {})
-        ki = match_known(self.known, sig)
+        ki = match_known(self.known, sig, case)
         if ki is not None:
             st.known_hits[str(ki)] += 1
             st.known_samples.setdefault(str(ki), {"case": case, "viol": viol})
@@ -311,7 +313,7 @@ def run_check(pid, tier, seed):
         ex = mod.extra_campaign(tier, seed) or {}
         extra_cov = ex.get("coverage", {})
         for f in ex.get("failures", []):
-            ki = match_known(known, f["viol"].get("sig", {}))
+            ki = match_known(known, f["viol"].get("sig", {}), f.get("case"))
             if ki is not None:
                 m["known_hits"][str(ki)] += 1
                 m["known_samples"].setdefault(str(ki), {"case": f["case"], "viol": f["viol"]})
@@ -392,7 +394,7 @@ def run_replay(pid, path):
     if viol is None:
         print("replay %s: no violation (property holds on this case)" % path)
         return 0
-    ki = match_known(known, viol.get("sig", {}))
+    ki = match_known(known, viol.get("sig", {}), data["case"])
     if ki is not None:
         print("KNOWN-FINDING: property=%s %s" % (pid, known[ki]["what"]))
         return 0
